@@ -264,6 +264,7 @@ fn main() {
                     for flags in 0..8u32 {
                         check(&mut run, &a, b, flags & 1 != 0, flags & 2 != 0, flags & 4 != 0);
                         check(&mut run, b, &a, flags & 1 != 0, flags & 2 != 0, flags & 4 != 0);
+                        run.tick(); // quadratic tables: a pair of 1025-symbol strings takes a while
                     }
                 }
             }
